@@ -23,12 +23,18 @@ Arg(e) ==
     [] e.op \in {"concat", "rconcat"} -> <<e.arg[1], e.arg[2], e.arg[3], ToSet(e.arg[4])>>
     [] OTHER -> e.arg
 
+\* a returned Atom is logged as [uid, tag, cell, sorted list of the optional annotations it carries]
+OutOf(e) ==
+  IF e.op \in {"index", "take_then_overwrite"} /\ e.oc = "ok" /\ e.out # <<>>
+    THEN <<e.out[1], e.out[2], e.out[3], ToSet(e.out[4])>>
+    ELSE e.out
+
 \* an event whose index forms are outside the form domain is a defect of the driver, not of the
 \* code: it is reported with the outcome "OutsideDomain" (the driver turns it into a machinery failure)
 Judge(e, r) ==
   LET okOc  == r.oc = e.oc
       okObs == r.st = FromObs(e.obs)
-      okOut == (r.oc # "ok" \/ e.oc # "ok") \/ r.out = e.out
+      okOut == (r.oc # "ok" \/ e.oc # "ok") \/ r.out = OutOf(e)
   IN IF ~Dom_Call(e.op, Arg(e)) \/ (e.op = "index" /\ ~Dom_Index(S, Arg(e)))
        THEN PrintT(<<"MISMATCH", tid, l + 1, <<FALSE, FALSE, FALSE>>, "OutsideDomain", <<>>, <<>>>>)
      ELSE IF okOc /\ okObs /\ okOut THEN TRUE
